@@ -32,7 +32,7 @@ pub open spec fn segment_post(g: ModuleGraph, roots: Seq<Url>, r: ModuleGraph) -
     } else {
         &&& seg_content(g, seg_reached(g, roots), r)
         &&& r.graph_kind == g.graph_kind && r.imports == g.imports && r.packages == g.packages && r.has_node_specifier == g.has_node_specifier
-        &&& is_seq(r.roots).no_duplicates() && forall|u: Url| is_seq(r.roots).contains(u) <==> roots.contains(u)
+        &&& forall|u: Url| is_seq(r.roots).contains(u) <==> roots.contains(u)
     }
 }
 
@@ -58,13 +58,24 @@ pub proof fn lemma_all_known(g: ModuleGraph, roots0: Seq<Url>, rs: Seq<&Url>, al
         assert(roots0[j] == *rs[i]);
     }
 }
-pub proof fn lemma_roots_owned(roots0: Seq<Url>, rs: Seq<&Url>, owned: Seq<Url>)
+pub proof fn lemma_roots_owned(roots0: Seq<Url>, rs: Seq<&Url>, m: Seq<Url>, owned: Seq<Url>)
     requires
         same_root_set(rs, refs_of(roots0)),
-        forall|u: Url| #[trigger] owned.contains(u) ==> in_roots(rs, u),
-        forall|i: int| 0 <= i < rs.len() ==> owned.contains(*(#[trigger] rs[i])),
+        m.len() == rs.len(),
+        forall|i: int| 0 <= i < m.len() ==> #[trigger] m[i] == *rs[i],
+        forall|u: Url| #[trigger] owned.contains(u) <==> m.contains(u),
     ensures forall|u: Url| owned.contains(u) <==> roots0.contains(u),
 {
+    assert forall|u: Url| #[trigger] owned.contains(u) ==> in_roots(rs, u) by {
+        if owned.contains(u) {
+            let j = choose|j: int| 0 <= j < m.len() && m[j] == u;
+            assert(*rs[j] == u);
+        }
+    }
+    assert forall|i: int| 0 <= i < rs.len() implies owned.contains(*(#[trigger] rs[i])) by {
+        assert(m[i] == *rs[i]);
+        assert(m.contains(m[i]));
+    }
     assert forall|u: Url| owned.contains(u) <==> roots0.contains(u) by {
         if owned.contains(u) {
             assert(in_roots(refs_of(roots0), u));
